@@ -140,6 +140,18 @@ CHECKS = {
             'non-contiguous views (reorder_pops transposes, Fortran order, strided and reversed slices) are included.',
             'Labels without double quotes/newlines, comments without newlines (not representable in the format); scratch files under /verif/.scratch.',
             'DESIGN.md §3 C14'),
+    'C15': ('model_checking',
+            'exhaustive enumeration of the model catalogue (discovered by introspection) x per-model checks (arity, parameter lattice with per-parameter corners, zero-length epochs, name-derived nesting rules, label-swap on a time-step ladder) and of an explicit 83-edge nesting graph x lattice points',
+            'Every function exposing __param_names__ (106 models: 13 one-, 59 two-, 34 three-population) is evaluated for arity n-1/n/n+1, '
+            'on two interior parameter points and every per-parameter corner (T in {0,1e-3,1}, m in {0,5}, nu in {0.1,10}, s,f in {0.2,0.8}, gamma in {0,+-5}) '
+            'for finiteness, non-negativity, shape and extrapolation tag; continuity at every zero-length epoch; X_sel(0)==X, '
+            'X_sel_single_gamma(g)==X_sel(g,g), X_asym(m,m)==X_sym(m) wherever the names exist; label-swap equivariance for every model whose '
+            'parameter names are closed under the swap, with the error required to vanish with the time step. The explicit nesting graph '
+            '(zero migration, zero-length epochs, equal rates, merged epochs, constant-vs-function drivers) is evaluated edge by edge.',
+            'Identities are checked on coarse grids (they hold at any grid); "~" edges are decided on a two-level time-step ladder; small negative '
+            'entries (>-2e-3 of the maximum at a single grid) are treated as discretisation error; models with directional admixture or two '
+            'selection coefficients are swap-tested only in their symmetric sub-family.',
+            'DESIGN.md §3 C15'),
     'C17': ('model_checking',
             'stateless exploration of all thread interleavings of the real cache builder under a controlled scheduler (fake multiprocessing; stateful symmetry-reduced DFS cross-checked by preemption-bounded unpruned DFS), exhaustive fault subsets and merge multisets, plus a quadrature lattice against an independently coded reference',
             'Cache1D/Cache2D._multiple_processes and _worker_sfs run unchanged as baton-passed threads behind a fake multiprocessing module '
